@@ -29,8 +29,12 @@ echo "demo_with_exit=$W suite_with_exit=$S demo_without_exit=$N"
 echo "== [/repo] applying patch and running checks: $CHECKS"
 cd /verif
 if [ -n "$(git -C /repo status --porcelain)" ]; then echo "REPO DIRTY"; exit 2; fi
-if ! git -C /repo apply --3way $OUT/patch.diff 2>/dev/null && ! git -C /repo apply $OUT/patch.diff; then echo "PATCH DOES NOT APPLY TO /repo HEAD"; git -C /repo checkout -- .; exit 3; fi
-git -C /repo reset -q 2>/dev/null
+PATCH=$OUT/patch.diff
+[ -f $OUT/patch_adapted_to_head.diff ] && PATCH=$OUT/patch_adapted_to_head.diff
+if ! git -C /repo apply $PATCH 2>/dev/null; then
+  if ! git -C /repo apply --3way $PATCH 2>/dev/null; then echo "PATCH DOES NOT APPLY TO /repo HEAD (write $OUT/patch_adapted_to_head.diff)"; git -C /repo reset -q --hard HEAD; exit 3; fi
+  git -C /repo reset -q 2>/dev/null
+fi
 for c in $CHECKS; do
   out=$(./check $c --tier quick 2>&1); code=$?
   echo "--- $c exit=$code"; echo "$out" | grep -E "^VIOLATION|signature:|held|MACHINERY" | cut -c1-220 | head -8
